@@ -360,10 +360,25 @@ def reject_programs(dev):
     return progs
 
 
-def history_programs(dev):
+def history_programs(dev, same_name=False):
     """Histories with zero moves, same-labware operations, split volumes and all kinds of labels (C11)."""
     P, T, Sx = 0, 1, 2
     progs = []
+    if same_name:
+        # two plates and two troughs that are different objects with equal names: only the histories are judged
+        lws = [gen.mk_plate("plate", 3, 4, 0, 30, [6, 0, 0, 0, 9, 0, 0, 0, 0, 0, 0, 12]), gen.mk_trough("trough", 4, 3, 2, 60, [50, 40, 0]),
+               gen.mk_plate("plate", 3, 4, 0, 30, [0] * 12), gen.mk_trough("trough", 4, 3, 2, 60, [20, 0, 0])]
+        h = _hdr("history/same-name", dev, lws, wlmax=5, flags={"comp": False, "norm": False, "fullhist": True, "records": False, "robot": False})
+        h["ops"] = [
+            {"op": "add", "lw": 0, "wells": L([(0, 1)]), "vols": S(3), "label": "one"},
+            {"op": "add", "lw": 0, "wells": L([(1, 1)]), "vols": S(4), "label": "two"},
+            {"op": "add", "lw": 2, "wells": L([(1, 1)]), "vols": S(1), "label": "other plate"},
+            {"op": "transfer", "src": 0, "sw": L([(0, 0), (1, 1)]), "dst": 2, "dw": L([(0, 0), (0, 1)]), "vols": L([2, 3]), "label": "between namesakes", "wash": 1},
+            {"op": "transfer", "src": 0, "sw": L([(1, 1)]), "dst": 2, "dw": L([(2, 2)]), "vols": S(1), "label": "again", "wash": "reuse"},
+            {"op": "distribute", "src": 1, "col": 0, "dst": 3, "dw": L([(0, 1), (0, 2)]), "vol": 3, "label": "trough to its namesake"},
+            {"op": "transfer", "src": 1, "sw": L([(0, 0)]), "dst": 3, "dw": L([(1, 0)]), "vols": S(12), "label": "split", "wash": 1},
+        ]
+        return [h]
     ops = [
         {"op": "add", "lw": P, "wells": L([(0, 1), (1, 1)]), "vols": L([3, 4]), "label": "added"},
         {"op": "remove", "lw": P, "wells": L([(0, 1)]), "vols": S(1), "label": None},
@@ -653,6 +668,36 @@ def round2_programs(dev):
         {"op": "aspirate", "lw": P, "wells": L([(1, 1)]), "vols": S(2), "label": "would underflow a poisoned well"},
         {"op": "transfer", "src": T, "sw": L([(0, 0)]), "dst": P, "dw": L([(0, 1)]), "vols": S(NAN), "label": "nan transfer", "wash": 1},
     ], wlmax=40, flags={"comp": False, "norm": False})
+    # initial volumes handed over as float16 / float32 / int32 tables: the labware works in full precision afterwards
+    for dt in ("float16", "float32", "int32"):
+        lws = [gen.mk_plate("plate", 2, 2, 0, 3000, [2048, 1024, 0, 512]), gen.mk_trough("trough", 4, 2, 0, 5000, [4096, 100])]
+        lws[0]["init_dtype"] = dt
+        prog(f"initial-volumes-{dt}", lws, [
+            {"op": "add", "lw": P, "wells": L([(0, 0)]), "vols": S(1), "label": "one more"},
+            {"op": "add", "lw": P, "wells": L([(0, 0)]), "vols": S(1), "label": "and another"},
+            {"op": "dispense", "lw": P, "wells": L([(0, 0), (1, 0)]), "vols": L([1, 1]), "label": "two wells"},
+            {"op": "remove", "lw": P, "wells": L([(0, 0)]), "vols": S(3), "label": "back"},
+            {"op": "transfer", "src": P, "sw": L([(0, 0)]), "dst": P, "dw": L([(0, 1)]), "vols": S(1), "label": "one", "wash": 1},
+            {"op": "transfer", "src": T, "sw": L([(0, 0)]), "dst": P, "dw": L([(1, 1)]), "vols": S(1), "label": "one from the trough", "wash": 1},
+        ], wlmax=10, flags={"comp": False, "norm": False, "fullhist": True})
+    # mixing in place (source well = destination well): the aspiration is still subject to min_volume
+    lws = [gen.mk_plate("plate", 2, 2, 5, 30, [20, 8, 0, 6]), gen.mk_trough("trough", 4, 2, 10, 60, [24, 12])]
+    prog("mix-in-place", lws, [
+        {"op": "transfer", "src": P, "sw": L([(0, 0)]), "dst": P, "dw": L([(0, 0)]), "vols": S(10), "label": "mix 10 of 20, min 5", "wash": 1},
+        {"op": "transfer", "src": P, "sw": L([(0, 0)]), "dst": P, "dw": L([(0, 0)]), "vols": S(16), "label": "mix 16 of 20 would leave 4 < 5", "wash": 1},
+        {"op": "transfer", "src": P, "sw": L([(1, 0), (0, 0)]), "dst": P, "dw": L([(1, 0), (0, 0)]), "vols": L([3, 15]), "label": "second row too much", "wash": "reuse"},
+        {"op": "transfer", "src": T, "sw": L([(0, 0)]), "dst": T, "dw": L([(2, 0)]), "vols": S(14), "label": "two rows of one trough column: 24 - 14 = 10", "wash": 1},
+        {"op": "transfer", "src": T, "sw": L([(1, 0)]), "dst": T, "dw": L([(3, 0)]), "vols": S(15), "label": "24 - 15 < 10", "wash": 1},
+        {"op": "transfer", "src": P, "sw": L([(0, 0)]), "dst": P, "dw": L([(0, 0)]), "vols": S(40), "label": "split mix: 40 in steps of 7, each step fits", "wash": 1},
+    ], wlmax=16, flags={"comp": False, "norm": False})
+    # one call naming the same well twice with two different liquids
+    prog("same-well-twice", lw(), [
+        {"op": "dispense", "lw": P, "wells": L([(0, 1), (0, 1)]), "vols": L([2, 2]), "label": "acid then base",
+         "comps": [{"acid": (1, 1)}, {"base": (1, 1)}]},
+        {"op": "add", "lw": P, "wells": L([(1, 1), (1, 1), (1, 1)]), "vols": L([1, 2, 1]), "label": "three liquids",
+         "comps": [{"x": (1, 1)}, {"y": (1, 1)}, {"z": (1, 2), "x": (1, 2)}]},
+        {"op": "transfer", "src": P, "sw": L([(0, 1), (1, 1)]), "dst": Sx, "dw": L([(0, 1), (0, 1)]), "vols": L([2, 2]), "label": "pool", "wash": 1},
+    ], wlmax=30)
     # empty argument lists: nothing is pipetted, nothing is refused, later operations are unaffected
     prog("empty-lists", lw(), [
         {"op": "add", "lw": P, "wells": L([(0, 1)]), "vols": S(2), "label": "before"},
